@@ -489,10 +489,8 @@ pub fn stream_cost(opt: &HashMap<String, String>) -> i32 {
         let cap: u64 = match (wide, thorough) { (true, false) => 44, (true, true) => 90, (false, false) => 10, (false, true) => 14 };
         let n = if i % 9 == 0 { rng.below(5) } else { rng.range(8.min(cap), cap) };
         let fam = ["sorted", "revsorted", "allequal", "lattice", "collinear", "uniform", "neartie", "duppoints", "euclid", "staircase"][rng.below(10) as usize];
-        let v = if fam == "staircase" {
-            let nn = n as usize; let mut v = vec![]; for i in 0..nn { for j in i + 1..nn { v.push(((nn - j) * (nn + 1) + (nn - i)) as f64); } } v
-        } else { matrix_f64(&mut rng, n as usize, fam, wide) };
-        cases.push(AlgoCase { algo, method, wide, n, bits: to_bits(&v, wide), family: if fam == "staircase" { "staircase" } else { FAMILIES.iter().find(|&&f| f == fam).unwrap() } });
+        let v = matrix_f64(&mut rng, n as usize, fam, wide);
+        cases.push(AlgoCase { algo, method, wide, n, bits: to_bits(&v, wide), family: FAMILIES.iter().find(|&&f| f == fam).unwrap() });
     }
     let mut order: Vec<usize> = (0..cases.len()).collect();
     order.sort_by_key(|&i| std::cmp::Reverse(cases[i].model_cost()));
